@@ -318,6 +318,9 @@ func c06Run(c *Ctx) {
 		if k == 4 {
 			nItems = 9 // the longest layouts use the first nine item kinds
 		}
+		if k == 3 && !c.Thorough() {
+			nItems = 11 // quick tier: three-item layouts over the first eleven item kinds (all of them in the thorough tier)
+		}
 		if !seqEnum(c, nItems, k, func(idx []int) bool {
 			seen := map[string]bool{}
 			for _, ix := range idx {
@@ -388,7 +391,7 @@ func init() {
 			if tier == "thorough" {
 				return map[string]any{"layout_items": 4, "item_alphabet": len(c06LayoutItems), "item_alphabet_len4": 9, "insert_forms": c06InsForms - 1, "all_use_junk_cfg_combinations_up_to_len": 3}
 			}
-			return map[string]any{"layout_items": 3, "item_alphabet": len(c06LayoutItems), "insert_forms": c06InsForms - 1}
+			return map[string]any{"layout_items": 3, "item_alphabet": len(c06LayoutItems), "item_alphabet_len3": 11, "insert_forms": c06InsForms - 1}
 		},
 		Assume: []string{"insert bodies use only text and data-map variables (whether an insert sees the layout's loop variable is not stated)"},
 		Run:    c06Run,
